@@ -30,3 +30,16 @@ pub fn leaf_contracts_on() -> bool {
 }
 
 pub use crate::framework::verif_kani::{aa_calls, aa_duration, aa_last, aa_timeout, new_unchecked_impl as new_unchecked, transition_any_action_impl as transition_any_action, AnyAction, VD, VT};
+
+/// a machine with one state that has no action, no counters and no transitions (built without
+/// validation: Machine::new would run the hashbrown-based row judgement as mere set-up)
+pub fn noop_machine() -> crate::Machine {
+    const NT: Option<Vec<crate::state::Trans>> = None;
+    crate::Machine {
+        allowed_padding_packets: 0,
+        max_padding_frac: 0.0,
+        allowed_blocked_microsec: 0,
+        max_blocking_frac: 0.0,
+        states: vec![crate::state::verif_kani::state_from_parts(None, (None, None), [NT; crate::constants::EVENT_NUM])],
+    }
+}
